@@ -310,7 +310,8 @@ class PositiveScalarEncoding(ScalarEncodingBase):
         )
 
     def get(self, param_internal):
-        return anp.log1p(anp.exp(param_internal)) + self.lower
+        # ``logaddexp(0, x) = log(1 + exp(x))``, but does not overflow for large x
+        return anp.logaddexp(0.0, param_internal) + self.lower
 
     def decode(self, val, name):
         assert val > self.lower, "{} = {} must be > self.lower = {}".format(
